@@ -179,7 +179,8 @@ class Tokenizer:
             last = tok
             end = tok.end
         self._proc_macro = False
-        return TokenInfo(Token.MACRO_PARAM, string, start, end, line)
+        text = self._source_text(self._tokens[-1].end, tok.start)  # from the end of the '!' to the closing bracket
+        return TokenInfo(Token.MACRO_PARAM, string if text is None else text, start, end, line)
 
     def consume_with_macro_params(self) -> TokenInfo:  # noqa: C901
         """loop until we get INDENT-DEDENT or NL"""
@@ -260,7 +261,12 @@ class Tokenizer:
                 for i, text in enumerate(tok.string.split("\n")[1 : tok.end[0] - tok.start[0]], 1):
                     lines.setdefault(tok.start[0] + i, text + "\n")
 
-        string = "".join(lines.values())
+        if lines:
+            # physical lines on which no token starts (a line holding only a backslash continuation, the last line of a
+            # multi-line string that is followed by a continuation) belong to the block as well
+            missing = [n for n in range(min(lines), max(lines) + 1) if n not in lines]
+            lines.update(zip(missing, self.get_lines(missing)))
+        string = "".join(lines[n] for n in sorted(lines))
         if is_indented:
             # dedent sees a blank CRLF line as text in column 0 (its "\r") and then removes nothing: hide the "\r"s from it
             src_lines = string.split("\n")
